@@ -1,5 +1,5 @@
 PROP = dict(
-        pkg="c11", level="fuzzing",
+        pkg="c11", level="exploration",
         rule="C11: (a) mutated valid encodings / repo test inputs / hostile literals x reader options, read through the named reader and through auto-detection under a six-clause oracle "
              "(no panic, bounded values, bounded allocation, Validate => walker-consistent, consumers do not panic, no goroutine left); (b) mutated query programs through parse + semantic analysis + optimizer; "
              "(c) deterministic replay of /verif/corpus/C11 and /verif/replays/C11; (d) thorough tier: native go test -fuzz on five targets over the same oracle",
